@@ -37,5 +37,20 @@ CHECKS["C05"] = {
     "level_note": "Trusts the harness world and the reference model; the race step depends on the Go scheduler.",
 }
 
+CHECKS["C06"] = {
+    "level": "exploration",
+    "rule": "a reachable configuration (1-10 model-valid commands: deploys with drawn options incl. TLS/error pages/buffering, "
+            "rollout deploy/set/stop, pause, stop, resume, remove) followed by one failing command of a drawn class (malformed "
+            "target, dead target, unreadable certificate, bad/missing error pages, automatic TLS + wildcard, host conflict, unknown "
+            "service for 7 commands, rollout split without targets, rollout deploy of dead/malformed targets); oracle: every "
+            "observable (list, 9x10x2 request matrix incl. stop pages and redirects, rollout side of 5 cookies, parsed + normalised "
+            "state file) is identical before/after, and no probe reaches a target named only by the failed command in the 5 probe "
+            "intervals after it returned. Non-trivial = failing command issued with >=2 services deployed. Distinct by plan hash.",
+    "layers": [L("TestVF_C06", 400, 5000)],
+    "technique": "stateful property-based testing (rapid): generated configuration + generated failing command, before/after observational equality and probe-log invariant",
+    "level_text": "Bounded random exploration over configurations x error classes with an equality oracle on everything observable; late failures (after probing) are reached through the virtual clock.",
+    "level_note": "Trusts the harness world; observables are those listed in the rule (internal state that never becomes observable is not compared).",
+}
+
 ALL_IDS = ["C%02d" % i for i in range(1, 21)]
 NOT_APPLICABLE = {pid: "check not built yet (work in progress; see DESIGN.md section 8 for the order of work)" for pid in ALL_IDS if pid not in CHECKS}
